@@ -22,8 +22,13 @@ fn minval(v: &[i16]) -> i64 {
 
 /// Generate a key from a seed and observe everything C04 / C05 talk about.
 pub fn observe_key<V: Fv>(seed: [u8; 32], tag: &str) -> (KeyObs, Option<(V::Sk, V::Pk)>) {
+    observe_with::<V>(seed, tag, || V::keygen(seed))
+}
+
+/// The same for any way of making a key pair (e.g. the public `ntru_gen` on a scripted generator).
+pub fn observe_with<V: Fv>(seed: [u8; 32], tag: &str, maker: impl FnOnce() -> (V::Sk, V::Pk)) -> (KeyObs, Option<(V::Sk, V::Pk)>) {
     verif::begin(Plan { record: true, ..Default::default() });
-    let kp = guarded(|| V::keygen(seed));
+    let kp = guarded(maker);
     let evs = verif::end();
     let cands: Vec<Value> = evs
         .iter()
@@ -137,6 +142,201 @@ fn keys_for<V: Fv>(seed: u64, nheavy: usize, nlight: usize, heavy: &mut Shards, 
     }
 }
 
+// ---------------------------------------------------------------- boundary candidates through a scripted generator
+
+const RCDT: [u128; 18] = [
+    3024686241123004913666, 1564742784480091954050, 636254429462080897535, 199560484645026482916, 47667343854657281903,
+    8595902006365044063, 1163297957344668388, 117656387352093658, 8867391802663976, 496969357462633, 20680885154299,
+    638331848991, 14602316184, 247426747, 3104126, 28824, 198, 1,
+];
+
+/// Serves scripted bytes (one per generator word, as the crate draws them), then a seeded stream.
+pub struct ScriptThenRng {
+    pub script: Vec<u8>,
+    pub pos: usize,
+    pub fallback: rand_chacha::ChaCha20Rng,
+}
+impl rand::RngCore for ScriptThenRng {
+    fn next_u32(&mut self) -> u32 {
+        if self.pos < self.script.len() {
+            self.pos += 1;
+            self.script[self.pos - 1] as u32
+        } else {
+            self.fallback.next_u32()
+        }
+    }
+    fn next_u64(&mut self) -> u64 {
+        self.next_u32() as u64
+    }
+    fn fill_bytes(&mut self, dest: &mut [u8]) {
+        for d in dest.iter_mut() {
+            *d = self.next_u32() as u8;
+        }
+    }
+    fn try_fill_bytes(&mut self, dest: &mut [u8]) -> Result<(), rand::Error> {
+        self.fill_bytes(dest);
+        Ok(())
+    }
+}
+
+/// The 17 stream bytes that make one sampler_z(0, sigma*, ..) call return z at its first iteration.
+fn sample_bytes(z: i64) -> Vec<u8> {
+    let (z0, b) = if z >= 1 { (z - 1, 1u8) } else { (-z, 0u8) };
+    let u = RCDT[z0 as usize];
+    let mut v = u.to_be_bytes()[7..16].to_vec();
+    v.push(b);
+    v.extend([0u8; 7]);
+    v
+}
+
+/// Byte script under which gen_poly produces exactly `target` (sums of 4096/n samples each), or None.
+fn script_for_poly(target: &[i16]) -> Option<Vec<u8>> {
+    let n = target.len();
+    let m = (4096 / n) as i64;
+    let mut out = Vec::with_capacity(4096 * 17);
+    for &c in target {
+        let c = c as i64;
+        let base = c / m;
+        let mut rem = c - base * m;
+        for _ in 0..m {
+            let mut z = base;
+            if rem > 0 {
+                z += 1;
+                rem -= 1;
+            } else if rem < 0 {
+                z -= 1;
+                rem += 1;
+            }
+            if !(-17..=18).contains(&z) {
+                return None;
+            }
+            let bytes = sample_bytes(z);
+            // selection aid: make sure the real sampler accepts these bytes at once
+            let mut r = crate::d_sampler::ScriptRng::new(bytes.clone());
+            match guarded(|| verif::sampler_z(0.0, 1.43300980528773, 1.43300980528773 - 0.001, &mut r)) {
+                Outcome::Ret(got) if got as i64 == z && r.pos == 17 => {}
+                _ => return None,
+            }
+            out.extend(bytes);
+        }
+    }
+    Some(out)
+}
+
+fn scripted_keygen<V: Fv>(f: &[i16], g: &[i16], fallback_seed: u64) -> Option<impl FnOnce() -> (V::Sk, V::Pk)> {
+    use rand::SeedableRng;
+    let mut script = script_for_poly(f)?;
+    script.extend(script_for_poly(g)?);
+    let n = f.len();
+    Some(move || {
+        let mut rng = ScriptThenRng { script, pos: 0, fallback: rand_chacha::ChaCha20Rng::seed_from_u64(fallback_seed) };
+        let (f, g, cf, cg) = falcon_rust::math::ntru_gen(n, &mut rng);
+        let neg = |p: &falcon_rust::polynomial::Polynomial<i16>| p.coefficients.iter().map(|x| -x).collect::<Vec<i16>>();
+        let sk = V::sk_from_b0([g.coefficients.clone(), neg(&f), cg.coefficients.clone(), neg(&cf)]);
+        let pk = V::pk_from_sk(&sk);
+        (sk, pk)
+    })
+}
+
+/// Candidates that sit exactly on the decisions of key generation: an f with a zero NTT coefficient at a chosen
+/// position (must be discarded: not invertible modulo q) and f, g with a coefficient at / just beyond the edge of
+/// the encodable range (just beyond must be discarded).  Built from a real accepted (f, g) so that all the other
+/// tests of ntru_gen are likely to pass; whatever key ntru_gen finally returns is recorded and judged by TLC.
+fn boundary_keys<V: Fv>(seed: u64, thorough: bool, heavy: &mut Shards, light: &mut Shards) {
+    let mut rng = rng_for(seed, &format!("boundary-keys-{}", V::N));
+    let n = V::N;
+    let q = 12289i64;
+    let lim: i16 = if n == 512 { 31 } else { 15 };
+    let nbase = if thorough { 3 } else { 1 };
+    for bi in 0..nbase {
+        let (sk, _) = V::keygen(rng.gen());
+        let b0 = V::sk_b0(&sk);
+        let g: Vec<i16> = b0[0].clone();
+        let f: Vec<i16> = b0[1].iter().map(|x| -x).collect();
+        let mut variants: Vec<(String, Vec<i16>, Vec<i16>)> = vec![("scripted-replay".into(), f.clone(), g.clone())];
+        // (a) zero NTT coefficient at position k: change f_j by delta with v_k + delta * psi_k^j = 0 (mod q)
+        let fq: Vec<i16> = f.iter().map(|&x| ((x as i64 % q + q) % q) as i16).collect();
+        let v = verif::ntt_fft(&fq);
+        let ks: Vec<usize> = if thorough { vec![0, 1, n / 2, n - 1] } else { vec![0, n - 1] };
+        for &k in &ks {
+            let mut best: Option<(usize, i64)> = None;
+            for j in 0..n {
+                let mut e = vec![0i16; n];
+                e[j] = 1;
+                let w = verif::ntt_fft(&e)[k] as i64; // psi_k^j
+                let winv = verif::felt_inverse_or_zero(w as i16) as i64;
+                let mut d = (q - v[k] as i64) % q * winv % q;
+                if d > q / 2 {
+                    d -= q;
+                }
+                let nv = f[j] as i64 + d;
+                if nv.abs() <= lim as i64 && d != 0 && best.map(|b| d.abs() < b.1.abs()).unwrap_or(true) {
+                    best = Some((j, d));
+                }
+            }
+            if let Some((j, d)) = best {
+                let mut f2 = f.clone();
+                f2[j] = (f2[j] as i64 + d) as i16;
+                variants.push((format!("scripted-ntt-zero-{}", if k == 0 { "first".to_string() } else if k == n - 1 { "last".into() } else { k.to_string() }), f2, g.clone()));
+            }
+        }
+        // (b) coefficients at and just beyond the edge of the encodable range
+        // the edited pair is tuned (selection aid, through the hooks) so that it still passes the invertibility and
+        // Gram-Schmidt tests: the range decision is then the only one standing between the candidate and the solver
+        let tune = |f0: &Vec<i16>, g0: &Vec<i16>, on_f: bool, j: usize, val: i16| -> Option<(Vec<i16>, Vec<i16>)> {
+            let mut f2 = f0.clone();
+            let mut g2 = g0.clone();
+            if on_f { f2[j] = val } else { g2[j] = val }
+            let norm = |a: &Vec<i16>, b: &Vec<i16>| a.iter().chain(b.iter()).map(|&x| (x as i64) * (x as i64)).sum::<i64>();
+            for _ in 0..400 {
+                let fq: Vec<i16> = f2.iter().map(|&x| ((x as i64 % q + q) % q) as i16).collect();
+                let inv_ok = verif::ntt_fft(&fq).iter().all(|&x| x != 0);
+                let gs = verif::gram_schmidt_norm_squared(&f2, &g2);
+                if inv_ok && gs <= 1.3689 * 12289.0 - 5.0 {
+                    return Some((f2, g2));
+                }
+                // shrinking lowers ||(f,g)||^2 but raises the second Gram-Schmidt quantity: stop when the first is well below
+                if (norm(&f2, &g2) as f64) < 1.3689 * 12289.0 * 0.93 {
+                    return None;
+                }
+                // shrink the largest coefficient other than the edited one
+                let mut bi = (true, usize::MAX, 0i16);
+                for (idx, &c) in f2.iter().enumerate() {
+                    if !(on_f && idx == j) && c.abs() > bi.2.abs() { bi = (true, idx, c); }
+                }
+                for (idx, &c) in g2.iter().enumerate() {
+                    if !(!on_f && idx == j) && c.abs() > bi.2.abs() { bi = (false, idx, c); }
+                }
+                if bi.1 == usize::MAX || bi.2 == 0 { return None; }
+                if bi.0 { f2[bi.1] -= bi.2.signum() } else { g2[bi.1] -= bi.2.signum() }
+            }
+            None
+        };
+        for &(val, name) in &[(-(lim + 1), "below-min"), (lim + 1, "above-max"), (-lim, "at-min"), (lim, "at-max")] {
+            // edit the coefficient that is already closest to the wanted value
+            let mut jf: Vec<usize> = (0..n).collect();
+            jf.sort_by_key(|&i| (f[i] as i64 - val as i64).abs());
+            let mut jg: Vec<usize> = (0..n).collect();
+            jg.sort_by_key(|&i| (g[i] as i64 - val as i64).abs());
+            if let Some((f2, g2)) = jf.iter().take(6).find_map(|&j| tune(&f, &g, true, j, val)) {
+                variants.push((format!("scripted-f-{}", name), f2, g2));
+            }
+            if thorough || name == "below-min" {
+                if let Some((f2, g2)) = jg.iter().take(6).find_map(|&j| tune(&f, &g, false, j, val)) {
+                    variants.push((format!("scripted-g-{}", name), f2, g2));
+                }
+            }
+        }
+        for (tag, f2, g2) in variants {
+            if let Some(maker) = scripted_keygen::<V>(&f2, &g2, seed.wrapping_add(bi as u64)) {
+                let (obs, _) = observe_with::<V>([bi as u8; 32], &tag, maker);
+                heavy.emit(obs.heavy);
+                light.emit(obs.light);
+            }
+        }
+    }
+}
+
 pub fn keys(args: &Args) {
     let seed = args.num("--seed", 1);
     let dir = PathBuf::from(args.get_or("--out", "work/keys"));
@@ -149,5 +349,9 @@ pub fn keys(args: &Args) {
     let l1024 = args.num("--light1024", 20) as usize;
     keys_for::<V512>(seed, h512, l512, &mut heavy, &mut light, &mut verify);
     keys_for::<V1024>(seed, h1024, l1024, &mut heavy, &mut light, &mut verify);
+    if args.num("--boundary", 1) == 1 {
+        boundary_keys::<V512>(seed, args.thorough(), &mut heavy, &mut light);
+        boundary_keys::<V1024>(seed, args.thorough(), &mut heavy, &mut light);
+    }
     println!("heavy {} light {} verify {}", heavy.finish(), light.finish(), verify.finish());
 }
